@@ -4,6 +4,9 @@ properties.jsonl (everything not claimed is listed under not_applicable with its
 import json, os
 V = os.path.dirname(os.path.dirname(os.path.abspath(__file__)))
 claims = json.load(open(os.path.join(V, 'tools', 'claims.json')))
+import glob
+for f in sorted(glob.glob(os.path.join(V, 'tools', 'claims.d', '*.json'))):
+    claims['claimed'][os.path.basename(f)[:-5]] = json.load(open(f))
 ids = [json.loads(l)['id'] for l in open(os.path.join(V, 'properties.jsonl'))]
 checks = []
 for pid in ids:
